@@ -155,6 +155,14 @@ func rawState(l *sqlLexer) stateFn {
 				l.pos += width
 				return multilineCommentState
 			}
+			// the parser also reads // ... as a comment to the end of the line
+			if nextRune == '/' {
+				l.pos += width
+				return oneLineCommentState
+			}
+		case '#':
+			// and # ... as well
+			return oneLineCommentState
 		case utf8.RuneError:
 			if width != replacementcharacterwidth {
 				if l.pos-l.start > 0 {
